@@ -38,25 +38,34 @@ for fn in ("baseline.json", "baseline.relcheck.json"):
             known.append({"property": "C05", "case_hash": e["hash"], "signature": sig,
                           "what": f"{fid} {sig} on corpus input {e['origin']} ({why})"})
 
-# class-level entries: only used by the seeded hostile exploration of the thorough tier of C05 (families that are
-# never generated by any other workload) - call site + input class, see DESIGN 3.5
+# class-level entries: only used by the seeded hostile exploration of the thorough tier of C05 (inputs whose provenance
+# starts with "C05hostile/": families that no other workload generates) - call site + input class, see DESIGN 3.5.
+# On those (near-)degenerate inputs finding F5 (and F9 for generators on walls) makes the builder panic at one of its two
+# topology guards or return a wrong cell; HOW a wrong cell shows (which of the output oracles C01-C04 fires first) varies
+# from seed to seed, so the class lists every output-oracle signature plus the two panic sites and the two precondition
+# monitors of the exact path. Anything else - another panic site, a wrong sign of the exact predicate, a position outside
+# the integer grid, a non-finite value, a watchdog - is reported as a violation also on these inputs.
 HOSTILE = ["nearlattice", "walls", "cluster", "cosphere", "slabwalls", "nearpairs"]
-CLASS_SIGS = {
-    "nearlattice": ["panic:convex_cell.rs:No suitable vertex found to extend boundary!", "panic:geometry.rs:Degenerate -plane intersection!", "c01.vertex_closer_to_other_site", "c01.vertex_outside_box", "exact.negative_orientation", "exact.contradicts_true_geometry"],
-    "cluster": None, "nearpairs": None,   # filled below: every signature seen in the corpus for that family
-    "cosphere": None, "slabwalls": None, "walls": None,
-}
+CLASS_SIGS = [
+    "panic:convex_cell.rs:No suitable vertex found to extend boundary!", "panic:geometry.rs:Degenerate -plane intersection!",
+    "exact.negative_orientation", "exact.contradicts_true_geometry",
+    "c01.cell_missing", "c01.centroid", "c01.face_area", "c01.face_centroid", "c01.face_duplicate", "c01.face_missing",
+    "c01.face_spurious", "c01.vertex_closer_to_other_site", "c01.vertex_outside_box", "c01.vertices", "c01.volume",
+    "c01.wall_face", "c02.nonpositive", "c02.sum", "c03.face_not_listed_by_both", "c03.flux", "c03.no_reciprocal_face",
+    "c03.periodic_area", "c03.periodic_no_reciprocal", "c03.periodic_normal", "c03.reciprocal_area", "c03.reciprocal_centroid",
+    "c04.centroid_off_bisector", "c04.centroid_off_wall", "c04.closure", "c04.divergence",
+]
 by_family = {}
 for fn in ("baseline.json", "baseline.relcheck.json"):
     p = os.path.join(V, "corpus", fn)
     if os.path.exists(p):
         for e in json.load(open(p))["inputs"]:
             by_family.setdefault(e["family"], set()).update(e["signatures"])
+seen_in_corpus = set().union(*[by_family.get(f, set()) for f in HOSTILE]) if by_family else set()
 for fam in HOSTILE:
-    sigs = set(CLASS_SIGS.get(fam) or []) | by_family.get(fam, set())
-    for sig in sorted(sigs):
+    for sig in sorted(set(CLASS_SIGS) | seen_in_corpus):
         fid, why = finding(sig)
-        known.append({"property": "C05", "family": fam, "signature": sig,
+        known.append({"property": "C05", "family": fam, "origin_prefix": "C05hostile/", "signature": sig,
                       "what": f"{fid} {sig} on seeded inputs of the hostile family '{fam}' ({why})"})
 
 fixed = [
